@@ -82,13 +82,31 @@ Definition shdr_of (r : list (string * fval)) : shdr :=
 
 Definition dent := (Z * Z)%type.          (* (d_tag, d_val); d_ptr is the same member of the union *)
 
+(* the bytes from file offset pos on (nothing beyond the end); the i-th element; both total on Z *)
+Fixpoint seekz {A} (l : list A) (pos : Z) : list A :=
+  match l with
+  | [] => []
+  | _ :: r => if pos <=? 0 then l else seekz r (pos - 1)
+  end.
+Definition nthz {A} (l : list A) (i : Z) : option A :=
+  if i <? 0 then None else hd_error (seekz l i).
+(* a record count, cut at one more than the bytes available *)
+Definition clampn (img : list Z) (n : Z) : nat := Z.to_nat (Z.min n (zlen img + 1)).
+
+(* decode_layout for the two hash headers: the array counts are the 32-bit words number
+   [counts]; an array longer than the bytes at hand cannot be there (this is the same
+   partial function as decode_layout, evaluated without building an astronomic count) *)
+Definition word_at (le : bool) (bs : list Z) (i : nat) : Z := int_decode le (firstn 4 (skipn (4 * i) bs)).
+Definition decode_counted (L : layout) (le : bool) (counts : list nat) (bs : list Z) :=
+  if forallb (fun i => word_at le bs i <=? zlen bs) counts then decode_layout L bs else None.
+
 (* n records of layout L at off, off+stride, ... *)
 Fixpoint read_recs (L : layout) (img : list Z) (off stride : Z) (n : nat)
   : option (list (list (string * fval))) :=
   match n with
   | O => Some []
   | S k =>
-      match decode_layout L (skipn (Z.to_nat off) img) with
+      match decode_layout L (seekz img off) with
       | None => None
       | Some (r, _) =>
           match read_recs L img (off + stride) stride k with
@@ -200,7 +218,7 @@ Definition addr_to_off (ps : list phdr) (addr len : Z) : option Z :=
 (* ---------- hash tables ---------- *)
 (* SysV: "the number of symbol table entries should equal nchain" *)
 Definition sysv_valid (bs : list Z) (N : Z) : bool :=
-  match decode_layout (spec_Elf_Hash le) bs with
+  match decode_counted (spec_Elf_Hash le) le [0; 1]%nat bs with
   | Some (r, _) => rec_z r "nchains" =? N
   | None => false
   end.
@@ -210,7 +228,7 @@ Definition sysv_valid (bs : list Z) (N : Z) : bool :=
    of its chain; bit 0 of a chain word marks the last symbol of a chain.  The chains
    partition [symoffset, N). *)
 Definition gnu_valid (bs : list Z) (N : Z) : bool :=
-  match decode_layout (spec_Gnu_Hash le is64) bs with
+  match decode_counted (spec_Gnu_Hash le is64) le [0; 2]%nat bs with
   | None => false
   | Some (r, rest) =>
       let so := rec_z r "symoffset" in
@@ -258,14 +276,18 @@ Definition ptr_ok (is64 : bool) (img : list Z) (ps : list phdr) (ptr len : Z) : 
   | None => None
   end.
 
+(* a relocation table named by the array: its size tag is present, its entry-size tag
+   (for DT_JMPREL: DT_PLTREL) is present and holds [ent], and the table is mapped *)
 Definition reloc_ok (is64 : bool) (img : list Z) (ps : list phdr) (es : list dent)
-           (tptr tsz : Z) : bool :=
+           (tptr tsz tent : Z) (ent : list Z) : bool :=
   match first_val tptr es with
   | None => true
   | Some ptr =>
-      match first_val tsz es with
-      | Some sz => match ptr_ok is64 img ps ptr sz with Some _ => true | None => false end
-      | None => false
+      match first_val tsz es, first_val tent es with
+      | Some sz, Some en =>
+          existsb (Z.eqb en) ent &&
+          match ptr_ok is64 img ps ptr sz with Some _ => true | None => false end
+      | _, _ => false
       end
   end.
 
@@ -293,8 +315,8 @@ Definition describe (img : list Z) : option dyninfo :=
             match first_where (fun p => p_type p =? PT_DYNAMIC) ps,
                   filter (fun s => sh_type s =? SHT_DYNAMIC) ss with
             | Some seg, [sec] =>
-                match nth_error ss (Z.to_nat (sh_link sec)),
-                      dyn_table le is64 (skipn (Z.to_nat (p_offset seg)) img) with
+                match nthz ss (sh_link sec),
+                      dyn_table le is64 (seekz img (p_offset seg)) with
                 | Some st, Some es => Some (mkDyninfo le is64 h ps ss seg sec st es)
                 | _, _ => None
                 end
@@ -306,7 +328,7 @@ Definition describe (img : list Z) : option dyninfo :=
   end.
 
 Definition strtab_bytes (d : dyninfo) (img : list Z) : list Z :=
-  firstn (Z.to_nat (sh_size (di_str d))) (skipn (Z.to_nat (sh_offset (di_str d))) img).
+  firstn (Z.to_nat (sh_size (di_str d))) (seekz img (sh_offset (di_str d))).
 
 (* every dynamic pointer lies in a PT_LOAD whose file image contains the table, and the
    section headers describe the same bytes (tags, strings, relocation tables) *)
@@ -320,7 +342,7 @@ Definition consistent_b (img : list Z) : bool :=
       (* the terminator lies inside the segment and inside the section *)
       (zlen es * dyn_size is64 <=? p_filesz (di_seg d)) && (zlen es * dyn_size is64 <=? sh_size (di_sec d)) &&
       (* the section holds the same array as the segment (same offset, or a copy elsewhere) *)
-      match dyn_table (di_le d) is64 (skipn (Z.to_nat (sh_offset (di_sec d))) img) with
+      match dyn_table (di_le d) is64 (seekz img (sh_offset (di_sec d))) with
       | Some es2 => dents_eqb es es2
       | None => false
       end &&
@@ -336,8 +358,15 @@ Definition consistent_b (img : list Z) : bool :=
       (* every string-valued entry indexes a terminated string inside the table *)
       forallb (fun e => negb (string_tag (spec_is_solaris (e_machine (di_eh d)) (e_osabi (di_eh d))) (fst e)) ||
                         match str_at (strtab_bytes d img) (snd e) with Some _ => true | None => false end) es &&
-      reloc_ok is64 img ps es DT_REL DT_RELSZ && reloc_ok is64 img ps es DT_RELA DT_RELASZ &&
-      reloc_ok is64 img ps es DT_RELR DT_RELRSZ && reloc_ok is64 img ps es DT_JMPREL DT_PLTRELSZ
+      (* the other interpreted pointers, when present, lie in a PT_LOAD file image *)
+      forallb (fun tag => match first_val tag es with
+                          | Some ptr => match ptr_ok is64 img ps ptr 1 with Some _ => true | None => false end
+                          | None => true
+                          end) [DT_SYMTAB; DT_HASH; DT_GNU_HASH] &&
+      reloc_ok is64 img ps es DT_REL DT_RELSZ DT_RELENT [if is64 then 16 else 8] &&
+      reloc_ok is64 img ps es DT_RELA DT_RELASZ DT_RELAENT [if is64 then 24 else 12] &&
+      reloc_ok is64 img ps es DT_RELR DT_RELRSZ DT_RELRENT [if is64 then 8 else 4] &&
+      reloc_ok is64 img ps es DT_JMPREL DT_PLTRELSZ DT_PLTREL [DT_REL; DT_RELA]
   end.
 
 (* the symbol part: a SHT_DYNSYM section with standard entry size whose sh_link is the same
@@ -350,14 +379,14 @@ Definition hash_ok (d : dyninfo) (img : list Z) (N : Z) : bool :=
   match first_val DT_GNU_HASH es with
   | Some gp =>
       match ptr_ok is64 img ps gp 16 with
-      | Some off => gnu_valid (di_le d) is64 (skipn (Z.to_nat off) img) N
+      | Some off => gnu_valid (di_le d) is64 (seekz img off) N
       | None => false
       end
   | None =>
       match first_val DT_HASH es with
       | Some hp =>
           match ptr_ok is64 img ps hp 8 with
-          | Some off => sysv_valid (di_le d) (skipn (Z.to_nat off) img) N
+          | Some off => sysv_valid (di_le d) (seekz img off) N
           | None => false
           end
       | None => false
@@ -375,7 +404,7 @@ Definition sym_consistent_b (img : list Z) : bool :=
       | Some ds =>
           let N := sh_size ds / sym_size is64 in
           (sh_entsize ds =? sym_size is64) && (sh_size ds mod sym_size is64 =? 0) &&
-          match nth_error (di_shdrs d) (Z.to_nat (sh_link ds)) with
+          match nthz (di_shdrs d) (sh_link ds) with
           | Some st => (sh_type st =? SHT_STRTAB) && (sh_offset st =? sh_offset (di_str d))
           | None => false
           end &&
